@@ -6,6 +6,7 @@ import GoBT.Driver.Fee
 import GoBT.Driver.Json
 import GoBT.Driver.Addr
 import GoBT.Driver.Interp
+import GoBT.Driver.Ord
 open GoBT GoBT.Driver
 
 def dispatch (op : String) (args : List String) (impl : String) : Answer :=
@@ -48,6 +49,10 @@ def dispatch (op : String) (args : List String) (impl : String) : Answer :=
   | "IX.total" => ixTotal impl
   | "IX.dbg" => ixDbg args impl
   | "C04.mut" => c04Mut args impl
+  | "C20.list" => c20List args impl
+  | "C20.bid" => c20Bid args impl
+  | "C20.insc" => c20Insc args impl
+  | "C20.specific" => c20Specific args impl
   | _ => ("unknown-op", "n/a")
 
 partial def loop (h : IO.FS.Stream) (out : IO.FS.Stream) : IO Unit := do
